@@ -648,7 +648,10 @@ theorem responseValidate_eq (payload : Bytes) : Codec.responseValidate payload =
          · rw [if_neg hc, if_neg]
            · rfl
            · intro h; apply hc
-             simpa using h)
+             first
+             | (simpa using h)
+             | (have h' : checksum l ≠ x ∧ crc8 l ≠ x := by simpa using h
+                exact ⟨h'.2, h'.1⟩))
   | rfl
 
 /-! ### Command._next_message_id -/
